@@ -44,7 +44,7 @@ Definition visited_union (rs : list js) : js :=
   | _ =>
       if existsb is_empty rs then JS []
       else if forallb (fun r => match only_type r with Some _ => true | None => false end) rs
-      then JS [KwType (norm_types (flat_map (fun r => match only_type r with Some ts => ts | None => [] end) rs))]
+      then JS [KwType (norm_types (dedup_types (flat_map (fun r => match only_type r with Some ts => ts | None => [] end) rs)))]
       else match rs with
            | [a; b] =>
                if forallb (fun r => match get_type r with Some _ => true | None => false end) rs
